@@ -460,6 +460,15 @@ func (v *vdrRun) modelChecksOn(pre, pk *vdrSnapshot, label string, lifeReplay bo
 		sort.Strings(args)
 		an := v.preArgNames(dir, outs, args)
 		evs := []string{"y2", "e", "c"}
+		if v.spec.FailConsumer != "" && v.faultKey != "" && v.retried {
+			// a consumer failed, a kill pass ran while it awaited its retry, it was reset
+			fn := v.faultKey
+			if i := strings.Index(fn, ".fork"); i > 0 {
+				fn = fn[:i]
+			}
+			evs = append(evs, "f"+hx(fn), "k", "r"+hx(fn))
+			v.hist("life-replay-with-failed-consumer")
+		}
 		for _, d := range done {
 			evs = append(evs, "d"+hx(d))
 		}
